@@ -106,7 +106,8 @@ impl Vm {
     pub fn compare_pair(&self, mut left: VCell, mut right: VCell) -> Result<bool, Error> {
         loop {
             if !left.is_pair() || !right.is_pair() {
-                return self.eqv(&left, &right);
+                // the tail of an improper list may itself be a vector or a string
+                return self.equal(&left, &right);
             }
             let lcar = left.as_car()?;
             let rcar = right.as_car()?;
